@@ -28,7 +28,7 @@ MIN_EVENTS = {"ratings compared with the standalone rater": 150,
               "states without a successful current fit rated": 100,
               "cross-process rating comparisons": 10}
 TIMEOUT = {"quick": 1200, "thorough": 3500}
-N_CASES = {"quick": 6, "thorough": 90}     # curves per shard
+N_CASES = {"quick": 6, "thorough": 160}     # curves per shard
 RULE = ("case = (curve state: fresh | preprocessed only | fitted | settings "
         "edited after the fit | unsuccessful fit | refitted | retract fitted "
         "| recorded bad curve) x regressor (7 names, 'none' in 3 spellings) x "
